@@ -153,12 +153,20 @@ class Model:
                     m.imports.setdefault(a.asname or a.name, f'{modname}.{a.name}')
         for stmt in m.tree.body:
             self._scan_stmt(m, stmt, None, '')
-        # also scan statements under top-level if/try (conditional definitions)
+        # conditional definitions at module level (if/else, try/except): the else/handler branch (production
+        # configuration) is scanned first and existing bindings are kept
         for stmt in m.tree.body:
-            if isinstance(stmt, (ast.If, ast.Try, ast.With)):
-                for sub in ast.walk(stmt):
-                    if isinstance(sub, (ast.FunctionDef, ast.AsyncFunctionDef)) and sub.name not in m.functions and sub in getattr(stmt, 'body', []) + getattr(stmt, 'orelse', []):
-                        self._scan_stmt(m, sub, None, '')
+            if isinstance(stmt, (ast.If, ast.Try)):
+                branches = [stmt.orelse, stmt.body] if isinstance(stmt, ast.If) else [stmt.body] + [h.body for h in stmt.handlers] + [stmt.orelse]
+                for br in branches:
+                    for sub in br:
+                        if isinstance(sub, (ast.FunctionDef, ast.AsyncFunctionDef)) and sub.name not in m.functions:
+                            self._scan_stmt(m, sub, None, '')
+                        elif isinstance(sub, ast.ClassDef) and sub.name not in m.classes and sub.name not in m.assigns:
+                            self._scan_stmt(m, sub, None, '')
+                        elif isinstance(sub, ast.Assign) and len(sub.targets) == 1 and isinstance(sub.targets[0], ast.Name) and sub.targets[0].id not in m.assigns \
+                                and sub.targets[0].id not in m.classes and sub.targets[0].id not in m.functions:
+                            self._scan_stmt(m, sub, None, '')
 
     def _scan_stmt(self, m, stmt, cls, prefix):
         if isinstance(stmt, (ast.FunctionDef, ast.AsyncFunctionDef)):
